@@ -53,6 +53,36 @@ func ParsePresentationDefinition(raw []byte) (*PresentationDefinition, error) {
 	return &result, nil
 }
 
+// UnmarshalJSON refuses null entries in input_descriptors, submission_requirements and from_nested: matching dereferences them.
+// The JSON schema does not allow them, but not every definition is validated against the schema before it is decoded
+// (e.g. one that is retrieved from a remote presentation definition endpoint).
+func (presentationDefinition *PresentationDefinition) UnmarshalJSON(data []byte) error {
+	type alias PresentationDefinition
+	var decoded alias
+	if err := json.Unmarshal(data, &decoded); err != nil {
+		return err
+	}
+	for _, inputDescriptor := range decoded.InputDescriptors {
+		if inputDescriptor == nil {
+			return errors.New("invalid presentation definition: null input descriptor")
+		}
+	}
+	if hasNilSubmissionRequirement(decoded.SubmissionRequirements) {
+		return errors.New("invalid presentation definition: null submission requirement")
+	}
+	*presentationDefinition = PresentationDefinition(decoded)
+	return nil
+}
+
+func hasNilSubmissionRequirement(submissionRequirements []*SubmissionRequirement) bool {
+	for _, submissionRequirement := range submissionRequirements {
+		if submissionRequirement == nil || hasNilSubmissionRequirement(submissionRequirement.FromNested) {
+			return true
+		}
+	}
+	return false
+}
+
 // Candidate is a struct that holds the result of a match between an input descriptor and a VC
 // A non-matching VC also leads to a Candidate, but without a VC.
 type Candidate struct {
